@@ -109,6 +109,13 @@ Extra ==
               tp |-> ("pm" :> <<Include(LS(UpSH), Hash(<<LS(NT.a)>>, <<LI(5)>>), TRUE, TRUE, FALSE, FALSE), T(<<124>>),
                                 Include(LS(<<46, 47, 110, 120>>), Lit(Null), FALSE, FALSE, TRUE, FALSE), T(<<124>>), RelI(DotB)>>)
                      @@ ("sh" :> <<T(<<72>>), RelI(DotB)>>) @@ RelLeaves],
+    \* the name of the included template is an expression: concatenations (quotes inside the tag), a conditional, a filter
+    exprname |-> [entry |-> "main", fl |-> "",
+                  tp |-> ("main" :> <<T(<<91>>), Inc(Bin("~", LS(<<116>>), LS(<<49>>))), T(<<124>>), Inc(Bin("~", LS(<<116>>), LI(1))), T(<<124>>),
+                                      Include(Bin("~", LS(<<116>>), Var("a")), Hash(<<LS(NT.a)>>, <<Bin("~", LS(<<120>>), LS(<<121>>))>>), TRUE, FALSE, FALSE, FALSE), T(<<124>>),
+                                      Inc(Cond(Var("b"), LS(NT.t1), LS(NT.t3))), T(<<124>>), Inc(Filt("lower", LS(<<84, 51>>), <<>>)), T(<<124>>),
+                                      Include(Bin("~", LS(<<110>>), LS(<<120>>)), Lit(Null), FALSE, FALSE, TRUE, FALSE), T(<<93>>)>>)
+                         @@ ("t1" :> <<T(<<60>>), PrintS(Var("a")), T(<<62>>)>>) @@ ("t3" :> <<T(<<40>>), PrintS(Var("a")), T(<<41>>)>>)],
     \* a loader that has the template and fails is not "missing"
     ignfault |-> [entry |-> "main", fl |-> "t1",
                   tp |-> ("main" :> <<T(<<97>>), Include(LS(NT.t1), Lit(Null), FALSE, FALSE, TRUE, FALSE), T(<<98>>)>>) @@ ("t1" :> <<T(<<99>>)>>)],
